@@ -1115,7 +1115,7 @@ private:
                     miss = 0;
                     auto bmin = bigmin(*it, zmin, zmax);
                     auto range = super->pgm.search(bmin);
-                    it = std::upper_bound(super->data.begin() + range.lo, super->data.begin() + range.hi, bmin);
+                    it = std::lower_bound(super->data.begin() + range.lo, super->data.begin() + range.hi, bmin);
                     --it;
                 }
                 ++it;
